@@ -1,6 +1,7 @@
 """C01 - Connected instances converge on one running Master (necessary structural conditions, not convergence)."""
 import ast
 from ..model import own_nodes, AnalysisError
+from ..defuse import comp_view, cond_atoms
 from ..paths import ctext, factmap, must_call, call_text, returns
 from ..callgraph import CallGraph
 from ..fsm import Fsm, WORKING, ENDING
@@ -306,8 +307,28 @@ def run(P, R):
                 'RUNNING, STOPPED or ISOLATED; the context is stable only when all RUNNING instances report the same '
                 'non-empty set', 3)
     u = P.unit('StateModes.get_stable_running_identifiers')
-    empties = [facts for v, facts, n in returns(u) if isinstance(v, ast.Call) and ast.unparse(v) == 'set()']
-    ok = len(empties) == 1 and ('state in StateModes.STABLE_STATES', False) in {tuple(f) for f in empties[0]}
+    # `set()` is returned as soon as ONE peer state is outside STABLE_STATES: either from inside the loop over the
+    # states, or under `any(state not in STABLE_STATES for ..)` (closed forms: no binder names)
+    empties = [(facts, n) for v, facts, n in returns(u) if isinstance(v, ast.Call) and ast.unparse(v) == 'set()'
+               and facts]
+    ok = False
+    if len(empties) == 1:
+        facts, n = empties[0]
+        for src in ('each(self.instance_states.items())[1]', 'each(self.instance_states.values())'):
+            if (src + ' in StateModes.STABLE_STATES', False) in factmap(u).closed(n):
+                ok = True
+        for f in facts:
+            g = f.node
+            if f[1] and isinstance(g, ast.Call) and call_text(g) == 'any' and len(g.args) == 1:
+                cv = comp_view(u, g.args[0])
+                if cv and isinstance(cv['elt'], str) and cv['iters'] in (['self.instance_states.values()'],
+                                                                         ['self.instance_states.items()']):
+                    at = cond_atoms([ast.parse(cv['elt'], mode='eval').body]) | cv['conds']
+                    src = 'each(%s)%s' % (cv['iters'][0], '[1]' if cv['iters'][0].endswith('items()') else '')
+                    if at == {(src + ' in StateModes.STABLE_STATES', False)}:
+                        ok = True
+    runs = [v for v, facts, n in returns(u) if v is not None and ast.unparse(v) != 'set()']
+    ok = ok and len(runs) == 1
     stable = P.member(P.cls('StateModes'), 'STABLE_STATES')
     members = sorted(x.attr for x in ast.walk(stable[2][1]) if isinstance(x, ast.Attribute)
                      and isinstance(x.value, ast.Name) and x.value.id == 'SupvisorsInstanceStates') if stable else []
